@@ -89,3 +89,12 @@ pub assume_specification<T>[ std::cmp::min ](a: T, b: T) -> (r: T)
         vstd::std_specs::cmp::OrdSpec::cmp_spec(&a, &b) == core::cmp::Ordering::Greater ==> r == b,
         vstd::std_specs::cmp::OrdSpec::cmp_spec(&a, &b) != core::cmp::Ordering::Greater ==> r == a,
 ;
+
+/// S-11  <u8 as From<bool>>::from: false -> 0, true -> 1
+#[verifier::external_body]
+pub proof fn axiom_u8_from_bool()
+    ensures
+        <u8 as vstd::std_specs::convert::FromSpec<bool>>::obeys_from_spec(),
+        forall|b: bool| #[trigger] <u8 as vstd::std_specs::convert::FromSpec<bool>>::from_spec(b) == (if b { 1u8 } else { 0u8 }),
+{
+}
